@@ -6,6 +6,7 @@ CONSTANTS
   Lams <- MCLams
   ValsLo <- MCLo
   ValsHi <- MCHi
+  Kinds = {"arch", "param"}
   MaxDec = 3
   MaxOps = 5
 INVARIANT GramDef
